@@ -378,11 +378,29 @@ def gen_c07(rng):
         wdt = rng.choice(FLT_DT)
         wmk = mk_plain(rng, 1, cfg, wdt, sentinel=rng.choice([None, None, -1.0]))
         hist.append(wmk)
-        order = list(range(len(pix)))
+        def isvalid(v):
+            sent = mk.get('sentinel')
+            if mk['kind'] == 'rec':
+                names = [n for n, _ in mk['fields']]
+                v = v[names.index(mk['primary'])]
+            if mk['kind'] == 'plain' and mk.get('dtype') == 'b':
+                return bool(v)
+            if sent is None:
+                dt = mk.get('dtype') if mk['kind'] == 'plain' else dict(mk['fields'])[mk['primary']]
+                if dt and dt.startswith('u'):
+                    sent = 0       # default sentinel of unsigned types
+            return sent is None or v != sent
+        order = [j for j in range(len(pix)) if isvalid(vals[j])]
+        if not order:
+            order = [0]
+            vals[0] = rand_value(rng, mk, allow_sentinel=False)
+            if not isvalid(vals[0]):
+                return gen_c07(rng)
+            hist[-1 if k >= len(pix) else -2]['values'][0] = vals[0]
         if rng.random() < 0.5:
             rng.shuffle(order)
         wv = [rng.choice([0.5, 1.0, 2.0, 4.0, 0.25]) for _ in pix]
-        k2 = rng.randint(1, len(pix))
+        k2 = rng.randint(1, len(order))
         o1, o2 = order[:k2], order[k2:]
         hist.append(dict(op='upd', h=1, form='pix', operation='replace', expect='ok', pixels=[pix[j] for j in o1],
                          values=[wv[j] for j in o1], single=False))
